@@ -84,6 +84,8 @@ def gen(ctx):
     n = 4000 if ctx.tier == "quick" else 80000
     for _ in range(n):
         soup.append("".join(ctx.rng.choice(FRAGS) for _ in range(ctx.rng.randint(3, 6))))
+    for tail in ("\n", "\r\n", "\n\n", " \n"):
+        soup += [h + tail for h in ("$[::", "$.a[1::", "$[:2:", "$[?@.b[::", "$[", "$[?", "$.a[", "$[1,", "$[?@.a ==", "$[?length(", "$['a", "$.", "$..", "$[?@ =~ /a", "$[:", "$[1:", "$ |", "$.a &")]
     for s in soup:
         cases.append({"kind": "query", "text": s})
         if ctx.rng.random() < 0.15:
